@@ -94,6 +94,51 @@ def direction_check(ctx, c, outs):
     return None
 
 
+_FIRST = {}      # (group index, role, direction) -> colour computed the first time in this process
+
+
+def recolour_check(ctx, c, outs):
+    """the colour of a direction depends only on the group and the direction: computing it again later in the same
+    process, after keys of other groups were used (and with a freshly built key), gives bit-identical channels"""
+    k = c["k"]
+    v = np.asarray(c["v"], float).reshape(-1, 3)
+    tag = (k, tuple(map(tuple, v.tolist())))
+    try:
+        col = colours(key_for(k)[0], v)
+    except Exception as e:
+        return f"{c['name']}: colour computation raised {type(e).__name__}: {str(e)[:200]}"
+    if c["phase"] == "first":
+        _FIRST[tag] = col
+        return None
+    first = _FIRST.get(tag)
+    if first is None:      # replay of a 'again' case alone: establish the reference in a fresh interpreter
+        import json as _json
+        import subprocess
+        import sys
+        code = ("import json,sys,numpy as np\nfrom orix.quaternion import symmetry as S\nfrom orix.vector import Vector3d\n"
+                "from orix.plot.direction_color_keys import DirectionColorKeyTSL\n"
+                "k=int(sys.argv[1]);v=np.array(json.loads(sys.argv[2]))\n"
+                "G=list(S._groups)[k]\nprint(json.dumps(DirectionColorKeyTSL(G).direction2color(Vector3d(v)).tolist()))")
+        pr = subprocess.run([sys.executable, "-c", code, str(k), _json.dumps(v.tolist())], capture_output=True, text=True)
+        if pr.returncode != 0:
+            return None
+        first = np.array(_json.loads(pr.stdout.strip().split("\n")[-1]))
+        # in a replay, pollute as the original run did: use the keys of the groups used before
+        for kk in c.get("used_before", []):
+            try:
+                colours(key_for(kk)[0], v)
+            except Exception:
+                pass
+        col = colours(key_for(k)[0], v)
+    d = np.abs(col - first)
+    d = np.where(np.isnan(col) & np.isnan(first), 0.0, d)
+    if not (d <= 0).all():
+        i = int(np.argmax(np.nan_to_num(d, nan=9.0).max(axis=1)))
+        return (f"{c['name']}: the colour of direction {v[i].tolist()} was {first[i].tolist()} when first computed and is "
+                f"{col[i].tolist()} after the colour keys of other groups were used in the same process")
+    return None
+
+
 def orientation_check(ctx, c, outs):
     from orix.plot import IPFColorKeyTSL
     from orix.quaternion import Orientation, Rotation
@@ -154,6 +199,7 @@ SITES = {
     "direction_colour": sites.Site("direction_colour", "prop", direction_check),
     "orientation_colour": sites.Site("orientation_colour", "prop", orientation_check),
     "cubic_key": sites.Site("cubic_key", "prop", cubic_check),
+    "recolour": sites.Site("recolour", "prop", recolour_check),
 }
 PREDICATES = {}
 
@@ -172,6 +218,14 @@ def generate(ctx, status):
         yield "colour_arith", c
     from orix.quaternion import symmetry as S
     per = 12 if ctx.tier == "quick" else 150
+    # order independence: a few directions per group now (first use of each key) and again at the very end, in a seeded
+    # random group order, after every other key has been used
+    again = []
+    for k, G in enumerate(S._groups):
+        vs = [GQ.vec(rng) for _ in range(4)]
+        c = {"k": k, "name": G.name, "label": f"laue({G.name})", "v": vs, "phase": "first"}
+        yield "recolour", c
+        again.append(dict(c, phase="again", used_before=list(range(len(S._groups)))))
     for k, G in enumerate(S._groups):
         Gl, fs, nrm, m = c07.sector_data(k, "laue")
         for v, tag in c07.directions(rng, nrm, per):
@@ -183,6 +237,11 @@ def generate(ctx, status):
             d = GQ.vec(rng)
             ctx.count(f"orientation_colour/{s}", ("o", k, tuple(q)), nontrivial=True)
             yield "orientation_colour", {"k": k, "name": G.name, "label": f"laue({G.name})", "q": q, "dir": d}
+    for j in rng.permutation(len(again)):
+        ctx.count("recolour/again", ("rc", int(j)), nontrivial=True)
+        yield "recolour", again[int(j)]
+    for j in rng.permutation(len(again))[:12]:     # and once more, a different order
+        yield "recolour", again[int(j)]
     ctx.sample({"site": "direction_colour", "k": 37, "v": v})
     w = rng.random((40, 3))
     w /= w.sum(axis=1, keepdims=True)
@@ -191,12 +250,31 @@ def generate(ctx, status):
     yield "cubic_key", {"inside": pts.tolist()}
 
 
+def near_wall(case, width):
+    """some Laue-equivalent of the case's crystal direction is within `width` (sine of the angle) of a sector wall"""
+    from ..props.c04 import hmul
+    if "v" in case:
+        h = np.asarray(case["v"], float).reshape(-1, 3)[0]
+    else:
+        q = np.asarray(case["q"], float)
+        q = q / np.linalg.norm(q)
+        vq = np.concatenate([[0.0], np.asarray(case["dir"], float)])
+        qc = q * np.array([1, -1, -1, -1.0])
+        h = hmul(hmul(q[None], vq[None]), qc[None])[0, 1:]
+    G, fs, n, m = c07.sector_data(case["k"], "laue")
+    u = np.einsum("gij,j->gi", m, h)
+    u = u / np.linalg.norm(u, axis=1, keepdims=True)
+    return bool(len(n)) and bool(np.min(np.abs(u @ n.T)) < width)
+
+
 def run(ctx, status):
     def pred(eid):
         def f(case):
             for e in common.load_findings().get("findings", []):
                 if e["id"] == eid:
-                    return case.get("label") in e.get("members", [])
+                    if case.get("label") not in e.get("members", []):
+                        return False
+                    return near_wall(case, e["band"]) if "band" in e else True
             return False
         return f
     for e in common.load_findings().get("findings", []):
